@@ -30,7 +30,9 @@ CLAIMED = {
          'Client and server resets are exercised with a failing seeder, no seeder (hook H1) and a build of the library with every system seeder disabled, with and without injected entropy (must refuse with BR_ERR_NO_RANDOM before emitting a byte, or proceed). Long sessions per protection mode and version with renegotiations: each protected record must authenticate under sequence number previous+1 from 0 after every key change in the independent record layer, and explicit IVs/nonces per (direction, key) are pairwise distinct. 200/1000 connections with distinct seeds have pairwise distinct randoms, session IDs, ECDHE points and encrypted premasters; equal seeds and schedules reproduce the wire bytes exactly.',
          'Uniqueness is observed on sampled sessions; randomness quality is not assessed.'), 'C16': ('exploration', 'runtime monitoring: sessions with threshold-sized buffers measured by an independent record decoder (exact plaintext length per record, hello extensions from the wire), MITM on the echoed extension, forged maximum-size / oversize records',
          'For buffer sizes at each threshold (512..16384 plus the documented overheads) +-1 on each side independently and all three layouts, per protection mode and version, the harness checks on the real engines: the client requests exactly the length its buffers allow, an echo repeats the request, the negotiated flag equals the presence of the echo on the wire, a rewritten echo is refused, every record stays within 16384, the negotiated/requested length, the sender own limit and its output buffer, and forged conformant records of exactly the advertised length (CBC with 255 padding bytes) or exactly filling the input buffer are accepted while one just beyond it yields an error without any memory error.',
-         'Sampled buffer/mode combinations; the engine-split layout is checked for consistency only (split point not visible to the caller); OpenSSL as MFL-aware independent peer is exercised in C01 only.'),
+         'Sampled buffer/mode combinations; the engine-split layout is checked for consistency only (split point not visible to the caller); OpenSSL as MFL-aware independent peer is exercised in C01 only.'), 'C19': ('exploration', 'runtime monitoring: scenario scripts over seeded random schedules on real engines with stream, alert-count and renegotiation_info monitors fed by an independent record decoder; exhaustive transport cuts and alert injection against snapshotted receivers; br_sslio driven through callback-pumped peers',
+         'Closure at random points of bidirectional exchanges, transport cut at every byte of a recorded stream, every alert level with strided descriptions in three framings at four phases, renegotiation by either side (quiescent, declined, refused by precondition, repeated, with data in flight) and the br_sslio wrapper are executed on the real code; oracles: data written before a close request arrives, nothing is delivered after it, one close_notify per side, clean closure has error 0 and truncation never has, fatal alerts are reported with their description, warnings leave the stream in order, renegotiation hellos are bound to the previous Finished values and change the keys without disturbing either stream. One engine limitation (application data crossing a renegotiation request fails the connection) is recorded in known_findings.json.',
+         'Peers lacking RFC 5746 support are not available on this image; alert descriptions are strided in the quick tier (all in thorough); sampled schedules.'),
 }
 
 ENGINES = []
